@@ -424,6 +424,9 @@ func (g *gen) genFreeOpt(id int, region string) Case {
 			default:
 				st.Limit = mx + 1 + uint64(rng.Intn(int(total/3+2)))
 			}
+			if region == "free" && len(st.Errs) == 0 && rng.Intn(12) == 0 {
+				st.CancelAtRetrieval = 1 + rng.Intn(4)
+			}
 			c.Steps = append(c.Steps, st)
 		}
 	}
@@ -538,6 +541,7 @@ func Judge(c Case) *Verdict {
 	// crash experiment: a call during which the datastore died. Its response never reached anybody; from then on
 	// the released transactions are only collected and compared with the DA contents at the end (evalCrash).
 	armCrash := 0
+	cancelAt := 0
 	crashed := false
 	crashAt := 0
 	var crashB, crashR []string
@@ -546,7 +550,24 @@ func Judge(c Case) *Verdict {
 			ds.CrashAfter(armCrash - 1)
 			phase = fmt.Sprintf("datastore dies after %d more write(s)", armCrash-1)
 		}
-		resp, err := seq.GetNextBatch(ctx, coresequencer.GetNextBatchRequest{Id: []byte(chainID), LastBatchData: last, MaxBytes: limit})
+		callCtx := ctx
+		if cancelAt > 0 {
+			cctx, cancel := context.WithCancel(ctx)
+			k, at := 0, cancelAt
+			da.Delay = func(kind string) {
+				if kind == "getids" || kind == "get" {
+					if k++; k == at {
+						cancel()
+					}
+				}
+			}
+			callCtx = cctx
+			phase = fmt.Sprintf("the caller's context ends at the call's DA request #%d", cancelAt)
+			cancelAt = 0
+			defer func() { da.Delay = nil; cancel() }()
+			v.hits["call-with-context-cancelled-mid-scan"]++
+		}
+		resp, err := seq.GetNextBatch(callCtx, coresequencer.GetNextBatchRequest{Id: []byte(chainID), LastBatchData: last, MaxBytes: limit})
 		rec := CallRec{Step: stepIdx, Limit: limit, Head: s.w.head, Phase: phase}
 		if armCrash > 0 {
 			armCrash = 0
@@ -718,6 +739,7 @@ func Judge(c Case) *Verdict {
 				v.kinds.WriteString("p")
 			}
 			armCrash = st.CrashAfter
+			cancelAt = st.CancelAtRetrieval
 			if r := doCall(i, st.Limit, ""); r != nil {
 				return r
 			}
